@@ -30,6 +30,7 @@ type C09Case struct {
 	Cost  int    `json:"cost"`
 	Req   int32  `json:"req"`
 	Used  int32  `json:"used"`
+	Open  int    `json:"open,omitempty"` // crowded-sub: sessions the subscriber has open before the burst
 }
 
 type burstReq struct {
@@ -235,6 +236,16 @@ func oneBurst(c C09Case, rep int) (sig, msg string, nt bool) {
 			}
 		}
 	}
+	if c.Kind == "crowded-sub" {
+		// the subscriber already has hundreds of sessions open (and as many records)
+		for i := 0; i < c.Open; i++ {
+			s, ok := newSession(subs[0])
+			if !ok {
+				return "valid-request-rejected/create", fmt.Sprintf("prefix: create number %d for one subscriber (all earlier sessions still open) rejected or not answered", i+2), false
+			}
+			sessions = append(sessions, s)
+		}
+	}
 	// the burst
 	var reqs []*burstReq
 	for i := 0; i < c.N; i++ {
@@ -437,9 +448,12 @@ func oneBurst(c C09Case, rep int) (sig, msg string, nt bool) {
 		}
 		refs[s.ref] = s.supi
 	}
-	for _, s := range sessions {
+	for i, s := range sessions {
 		if released[s.supi+"|"+s.ref] > 0 {
 			continue
+		}
+		if len(sessions) > 60 && i > 20 && i < len(sessions)-20 && i%16 != 0 {
+			continue // (hundreds of sessions: the first and last twenty and every 16th)
 		}
 		lsn++
 		code, _, _ := doHTTP("POST", prefix+"/chargingdata/"+s.ref+"/update", mkUpdateBody(s.supi, s.id, 1, 0, 0, lsn, ""), nil)
@@ -501,3 +515,17 @@ func genC09(t *rapid.T) C09Case {
 }
 
 func TestC09Concurrent(t *testing.T) { h.Run(t, "C09", "bursts", genC09, judgeC09) }
+
+// Crowded: the bursts hit a subscriber that already has hundreds of sessions open.
+func TestC09Crowded(t *testing.T) {
+	h.Run(t, "C09", "crowded", func(t *rapid.T) C09Case {
+		return C09Case{Kind: "crowded-sub", Open: rapid.IntRange(260, 340).Draw(t, "open"),
+			N: rapid.SampledFrom([]int{8, 16}).Draw(t, "n"), Procs: rapid.SampledFrom([]int{2, 4, 16}).Draw(t, "procs"),
+			Reps: 1, Bal: 1 << 40, Cost: rapid.SampledFrom([]int{1, 3}).Draw(t, "cost"),
+			Req: int32(rapid.SampledFrom([]int{1, 100}).Draw(t, "req")), Used: int32(rapid.SampledFrom([]int{1, 50}).Draw(t, "used"))}
+	}, func(c C09Case) *h.Verdict {
+		v := judgeC09(c)
+		v.Label("sessions-open-at-once>256")
+		return v
+	})
+}
